@@ -62,6 +62,9 @@ fn classes(s: &Stats, t: &Trace) -> Vec<&'static str> {
     if t.mps_shrinks.1 > 0 {
         c.push("smaller-maximum-packet-size-withheld");
     }
+    if s.ambiguous_handles > 0 {
+        c.push("handle-of-a-request-with-an-identical-cancelled-twin(status-not-judged)");
+    }
     if s.replay_deferred_by_window > 0 {
         c.push("replay-paced-by-smaller-receive-maximum");
     }
